@@ -247,6 +247,10 @@ func (c *Config) Validate() error {
 		return err
 	}
 
+	if err := c.validateSubscriberPoolOverlap(); err != nil {
+		return err
+	}
+
 	if err := c.validateOSPFVRFInterfaces(); err != nil {
 		return err
 	}
